@@ -363,6 +363,12 @@ impl TheDrawFont {
         }
     }
 
+    /// verification hook: read access to one entry of the private glyph table
+    #[cfg(icy_engine_verif)]
+    pub fn verif_glyph(&self, index: usize) -> Option<&FontGlyph> {
+        self.char_table.get(index).and_then(|g| g.as_ref())
+    }
+
     pub fn get_font_height(&self) -> i32 {
         let f = self.char_table.iter().flatten().next();
         if let Some(glyph) = f {
